@@ -10,6 +10,7 @@ import (
 	"github.com/pkg/errors"
 	"go.brendoncarroll.net/p2p"
 	"go.brendoncarroll.net/p2p/s/swarmutil"
+	"go.brendoncarroll.net/p2p/verifhook"
 	"go.brendoncarroll.net/stdctx/logctx"
 	"golang.org/x/sync/errgroup"
 )
@@ -141,6 +142,7 @@ func (s *swarm[A]) handleTell(ctx context.Context, x p2p.Message[A]) error {
 	}
 	s.mu.Unlock()
 	if agg.addPart(part, totalParts, data) {
+		verifhook.Point(verifhook.FragAfterAddPart)
 		err = s.tells.Deliver(ctx, p2p.Message[A]{
 			Src:     x.Src,
 			Dst:     x.Dst,
